@@ -318,8 +318,9 @@ for _lab, _pid in ((["C03:"], "C03"), (["C02:", "REF:"], "C02")):
     CHECKS[_pid]["runs"] += [hdr92sweep(K, 17, (HDR92_LEN[K] - 17 + 3) // 4, 4, _lab, tiers=["thorough"]) for K in (8, 12)]
 # assembly match-copy strategies: byte-aligned two-byte window after non-repeating output (context 6)
 CHECKS["C18"]["runs"] += [dict(rd(6, 2, M=36, labels=["C18:"], covers=["ran"], harness="VerifAsmDiff", tiers=["quick", "thorough"], extra={"LITCAP": 1}), tags="verif", native_configs=[["verif", None]], maxdec=4000)]
-# (the unrestricted variant -- any first symbol, window output up to 260 bytes -- ran clean directly (11 511 path classes, 6 min) but the
-#  thorough command including it did not finish inside the session's last hour under load, so only the quick variant is registered in both tiers)
+# thorough: the unrestricted variant (any first symbol, window output up to 260 bytes); the thorough command including it ran clean on the
+# final tree (45 459 path classes, 53 min while another thorough command was running)
+CHECKS["C18"]["runs"] += [dict(rd(6, 2, M=260, labels=["C18:"], covers=["ran"], harness="VerifAsmDiff", tiers=["thorough"]), tags="verif", native_configs=[["verif", None]], maxdec=4000, maxconc=600)]
 # (context 1 with N=3 also catches the C18d change -- 2 min on the changed tree, 15.5 min and 22 013 path classes clean on the
 #  unchanged one when run directly -- but the whole thorough command with it could not be re-run to completion in the time left,
 #  so it is not registered)
